@@ -12,6 +12,7 @@ RULE = ("Hypothesis-generated configurations biased to crops with CCx > 0.96 (Co
         "configuration: >=1 day with canopy cover > 0.966, or ponding>0 with Es>0, or mulches with Es>0, or irrigation with "
         "WetSurf<100; distinct = configuration hash.")
 ASSUMPTIONS = [
+    "a run whose initial profile lies above saturation or below air-dry in some compartment (possible when depth points of one layer are extended into a layer with other hydraulic properties) is outside the domain of valid configurations: counted under the label start_outside_airdry_saturation, not evaluated",
     "tolerance 1e-9 mm; net-irrigation requirement (strategy 4) may be as low as -0.01 mm x number of compartments (root-zone bookkeeping rounding stated in the property)",
     "'outside a growing season' = rows with days-after-planting 0",
 ]
@@ -32,7 +33,7 @@ def strategy(tier):
 def evaluate(cfg):
     tr, res = observe(cfg)
     res.sample = base_sample(cfg, tr)
-    if tr.n == 0:
+    if tr.n == 0 or not tr.start_ok:
         return res
     idx, n = rows(tr)
     if n == 0:
